@@ -776,6 +776,11 @@ impl<B: AsRef<[AtomicUsize]>> AtomicBitVec<B> {
     unsafe fn get_unchecked(&self, index: usize, ordering: Ordering) -> bool {
         let word_index = index / BITS;
         let bits = self.bits.as_ref();
+        #[cfg(feature = "verif_hooks")]
+        crate::verif::sched_point(
+            crate::verif::site::BIT_VEC_GET_LOAD,
+            bits.get_unchecked(word_index) as *const _ as usize,
+        );
         let word = bits.get_unchecked(word_index).load(ordering);
         (word >> (index % BITS)) & 1 != 0
     }
@@ -785,6 +790,11 @@ impl<B: AsRef<[AtomicUsize]>> AtomicBitVec<B> {
         let bit_index = index % BITS;
         let bits = self.bits.as_ref();
 
+        #[cfg(feature = "verif_hooks")]
+        crate::verif::sched_point(
+            crate::verif::site::BIT_VEC_SET_RMW,
+            bits.get_unchecked(word_index) as *const _ as usize,
+        );
         // For constant values, this should be inlined with no test.
         if value {
             bits.get_unchecked(word_index)
@@ -801,6 +811,11 @@ impl<B: AsRef<[AtomicUsize]>> AtomicBitVec<B> {
         let bit_index = index % BITS;
         let bits = self.bits.as_ref();
 
+        #[cfg(feature = "verif_hooks")]
+        crate::verif::sched_point(
+            crate::verif::site::BIT_VEC_SWAP_RMW,
+            bits.get_unchecked(word_index) as *const _ as usize,
+        );
         let old_word = if value {
             bits.get_unchecked(word_index)
                 .fetch_or(1 << bit_index, ordering)
